@@ -82,6 +82,16 @@ func ruleR15(c *Ctx, prop string) {
 		return fmt.Sprintf("R15:%s:%s#%d", fname(f), kind, perFn[k])
 	}
 	for _, f := range L {
+		// the body of a generic function is only ever run through its instances, which are in the list too
+		generic := false
+		for g := f; g != nil; g = g.Parent() {
+			if g.TypeParams().Len() > 0 && len(g.TypeArgs()) == 0 {
+				generic = true
+			}
+		}
+		if generic {
+			continue
+		}
 		if strings.HasSuffix(c.fileOf(f.Pos()), ".pb.go") {
 			// generated getters: `if x != nil { return x.F }` — structural check
 			ok := c.pbGetterSafe(f)
@@ -246,23 +256,41 @@ func (c *Ctx) alwaysSliceIface(v ssa.Value, depth int) bool {
 		if !ok {
 			return false
 		}
-		f := call.Common().StaticCallee()
-		if f == nil || !isLibFn(f) || f.Blocks == nil {
+		var callees []*ssa.Function
+		if f := call.Common().StaticCallee(); f != nil {
+			callees = []*ssa.Function{f}
+		} else if node := c.cg.Nodes[call.Parent()]; node != nil && !call.Common().IsInvoke() {
+			// a function value: every function the call graph resolves it to
+			for _, e := range node.Out {
+				if e.Site == ssa.CallInstruction(call) {
+					callees = append(callees, e.Callee.Func)
+				}
+			}
+		}
+		if len(callees) == 0 {
 			return false
 		}
-		ei := errResultIndex(f.Signature)
-		n := 0
-		for _, r := range returnsOf(f) {
-			n++
-			if c.alwaysSliceIface(r.Results[x.Index], depth+1) {
-				continue
+		for _, f := range callees {
+			if f == nil || !isLibFn(f) || f.Blocks == nil || x.Index >= f.Signature.Results().Len() {
+				return false
 			}
-			if isNilConst(r.Results[x.Index]) && ei >= 0 && c.definitelyNonNilErr(r.Results[ei], r.Block(), 0) {
-				continue
+			ei := errResultIndex(f.Signature)
+			n := 0
+			for _, r := range returnsOf(f) {
+				n++
+				if c.alwaysSliceIface(r.Results[x.Index], depth+1) {
+					continue
+				}
+				if isNilConst(r.Results[x.Index]) && ei >= 0 && c.definitelyNonNilErr(r.Results[ei], r.Block(), 0) {
+					continue
+				}
+				return false
 			}
-			return false
+			if n == 0 {
+				return false
+			}
 		}
-		return n > 0
+		return true
 	}
 	return false
 }
@@ -689,6 +717,9 @@ func (c *Ctx) fnValueNonNil(v ssa.Value, b *ssa.BasicBlock, depth int) bool {
 	if depth > 5 {
 		return false
 	}
+	if b != nil && knownNonNil(v, b) {
+		return true // a dominating nil test
+	}
 	switch x := v.(type) {
 	case *ssa.Function, *ssa.MakeClosure:
 		return true
@@ -710,6 +741,64 @@ func (c *Ctx) fnValueNonNil(v ssa.Value, b *ssa.BasicBlock, depth int) bool {
 		}
 		for _, r := range returnsOf(f) {
 			if !c.fnValueNonNil(r.Results[0], r.Block(), depth+1) {
+				return false
+			}
+		}
+		return true
+	case *ssa.UnOp:
+		if x.Op != token.MUL {
+			return false
+		}
+		// a captured or address-taken variable: every value stored into its cell
+		cells := []ssa.Value{}
+		switch cell := x.X.(type) {
+		case *ssa.Alloc:
+			cells = append(cells, cell)
+		case *ssa.FreeVar:
+			f := cell.Parent()
+			idx := -1
+			for i, fv := range f.FreeVars {
+				if fv == cell {
+					idx = i
+				}
+			}
+			for _, g := range c.libFns {
+				for _, bb := range g.Blocks {
+					for _, in := range bb.Instrs {
+						if mc, ok := in.(*ssa.MakeClosure); ok && mc.Fn == ssa.Value(f) && idx >= 0 && idx < len(mc.Bindings) {
+							cells = append(cells, mc.Bindings[idx])
+						}
+					}
+				}
+			}
+		default:
+			return false
+		}
+		if len(cells) == 0 {
+			return false
+		}
+		for _, cell := range cells {
+			al, ok := cell.(*ssa.Alloc)
+			if !ok {
+				return false
+			}
+			n := 0
+			for _, r := range *al.Referrers() {
+				switch y := r.(type) {
+				case *ssa.Store:
+					if y.Addr != ssa.Value(al) {
+						return false
+					}
+					n++
+					if !c.fnValueNonNil(y.Val, y.Block(), depth+1) {
+						return false
+					}
+				case *ssa.UnOp, *ssa.MakeClosure, *ssa.DebugRef:
+				default:
+					return false
+				}
+			}
+			if n == 0 {
 				return false
 			}
 		}
